@@ -8,6 +8,7 @@ use crate::time_sync::TimeSync;
 use crate::{
     Config, DesyncDetection, Frame, GgrsError, NonBlockingSocket, PlayerHandle, NULL_FRAME,
 };
+use bincode::Options;
 use tracing::{trace, warn};
 
 #[cfg(feature = "verif-hooks")]
@@ -123,7 +124,12 @@ impl InputBytes {
             let start = p * size;
             let end = start + size;
             let player_byte_slice = &self.bytes[start..end];
-            let input: T::Input = bincode::deserialize(player_byte_slice)
+            // `bincode::deserialize` tolerates trailing bytes, which would let a frame of the wrong
+            // size through whenever its length is a multiple of the player count: be strict here
+            let input: T::Input = bincode::DefaultOptions::new()
+                .with_fixint_encoding()
+                .reject_trailing_bytes()
+                .deserialize(player_byte_slice)
                 .map_err(|e| format!("failed to deserialize input for player {p}: {e}"))?;
             player_inputs.push(PlayerInput::new(self.frame, input));
         }
